@@ -227,7 +227,7 @@ pub fn run(ctx: &Ctx, rec: &mut Recorder) -> Result<(), String> {
     let mut r0 = Rng::derive(ctx.seed, 7, 0xFFFF);
     selftest(&mut r0)?;
     let opts = ParseOptions::default();
-    let ncases = ctx.qt(60_000u64, 3_000_000u64);
+    let ncases = ctx.qt(60_000u64, 1_200_000u64);
     let max_len = ctx.qt(12_000usize, 40_000usize);
     for cno in 0..ncases {
         if !ctx.mine(cno) {
@@ -295,7 +295,7 @@ pub fn run(ctx: &Ctx, rec: &mut Recorder) -> Result<(), String> {
         }
     }
     // CCITT G4 via the fax crate
-    let nfax = ctx.qt(4_000u64, 150_000u64);
+    let nfax = ctx.qt(4_000u64, 60_000u64);
     for cno in 0..nfax {
         if !ctx.mine(cno) {
             continue;
